@@ -140,7 +140,7 @@ func flips(dir, mode, outPath string) {
 				w, err := newWorld(filepath.Join(dir, fmt.Sprintf("flip%d%d-%d", lay[0], lay[1], k)), lay)
 				must(err)
 				defer w.close()
-				r := &run{w: w, actors: map[string]*actor{}, o: o}
+				r := &run{w: w, actors: map[string]*actor{}}
 				for i := k; i < len(cases); i += workers {
 					op, cor, ck := cases[i].op, cases[i].cor, cases[i].ck
 					blk := cor.apply(w.images[op.base])
